@@ -88,8 +88,13 @@ func gen(t *rapid.T) Case {
 			op = hist.Op{K: "hard", Path: path, Target: tgt}
 		case "soft":
 			tgt := "/nowhere/x"
-			if len(objects) > 0 && rapid.Bool().Draw(t, "softExisting") {
+			switch r := rapid.IntRange(0, 9).Draw(t, "softKind"); {
+			case r == 0:
+				tgt = "/" // the root group is a valid soft link target
+			case r <= 5 && len(objects) > 0:
 				tgt = objects[rapid.IntRange(0, len(objects)-1).Draw(t, "tgtIdx")]
+			case r == 6:
+				tgt = "/" + strings.Repeat("deep/", rapid.IntRange(1, 40).Draw(t, "softDepth")) + "x" // long dangling path
 			}
 			op = hist.Op{K: "soft", Path: path, Target: tgt}
 		case "ext":
